@@ -1194,6 +1194,9 @@ impl<'a> Message<'a> {
     /// have at least some set of required attributes.  Returns an appropriate error message on
     /// failure to meet these requirements.
     ///
+    /// Only requests can be answered with an error response, `None` is returned for any other
+    /// class of message.
+    ///
     /// # Examples
     ///
     /// ```
@@ -1246,6 +1249,12 @@ impl<'a> Message<'a> {
         supported: &[AttributeType],
         required_in_msg: &[AttributeType],
     ) -> Option<MessageBuilder<'b>> {
+        // error responses only exist for requests: indications and responses are never
+        // answered (RFC 8489 Section 6.3.2 - 6.3.4), so there is nothing to generate for them
+        if !msg.has_class(MessageClass::Request) {
+            debug!("not a request, no error response can be generated");
+            return None;
+        }
         // Attribute -> AttributeType
         let unsupported: Vec<AttributeType> = msg
             .iter_attributes()
